@@ -279,6 +279,10 @@ def _level_follows_depth(fn):
     NODE = vf.expr(fn, node_phi.ref)
 
     def depth_of(e):
+        if e == ("arg", 0):
+            e = NODE      # before the loop the node passed in is the current node
+        elif e[0] == "load" and e[1][0] == "fld" and e[1][1] == ("arg", 0):
+            e = ("load", ("fld", NODE) + tuple(e[1][2:]))
         if e == NODE:
             return 0
         if e[0] == "load" and e[1][0] == "fld" and e[1][1] == NODE:
@@ -343,7 +347,7 @@ def _level_follows_depth(fn):
         n += 1
         c = o["counts"]
         delta = c.get("up", 0) - c.get("down", 0)
-        if d == "?" or c.get("other", 0) or delta != d or c.get("up", 0) + c.get("down", 0) != abs(d):
+        if d == "?" or c.get("other", 0) or delta != d:
             bad.append((ret.loc(), "returns %s (depth %s relative to the current node) with *lvl changed by %+d" % (vf.show(e), d, delta)))
     return bad, n
 
